@@ -120,6 +120,22 @@ func c20Exec(op string) string {
 		chk("j2x.JsonLeafValues", mval(lv) == mval(mj.LeafValues()))
 		lp, _ := j2x.JsonLeafPath(jtxt)
 		chk("j2x.JsonLeafPath", sortedStrs(lp) == sortedStrs(mj.LeafPaths()))
+		{
+			// where the walk order is fixed (one key per object, a long list) the wrappers return the
+			// paths and values in the order of the Map methods: list order, entry by entry
+			long := []byte(`{"a":{"l":[0,1,2,3,4,5,6,7,8,9,10,11,12,{"b":[20,21]}]}}`)
+			ml, _ := mxj.NewMapJson(long)
+			p1, _ := j2x.JsonLeafPath(long)
+			v1, _ := j2x.JsonLeafValues(long)
+			chk("j2x.JsonLeafPath(order)", strings.Join(p1, ",") == strings.Join(ml.LeafPaths(), ","))
+			chk("j2x.JsonLeafValues(order)", enc(v1) == enc(ml.LeafValues()))
+			lx := []byte("<a><l>0</l><l>1</l><l>2</l><l>3</l><l>4</l><l>5</l><l>6</l><l>7</l><l>8</l><l>9</l><l>10</l><l>11</l></a>")
+			mlx, _ := mxj.NewMapXml(lx)
+			p2, _ := x2j.XmlLeafPath(lx)
+			v2, _ := x2j.XmlLeafValues(lx)
+			chk("x2j.XmlLeafPath(order)", strings.Join(p2, ",") == strings.Join(mlx.LeafPaths(), ","))
+			chk("x2j.XmlLeafValues(order)", enc(v2) == enc(mlx.LeafValues()))
+		}
 	}
 
 	// ---- x2j
